@@ -215,6 +215,24 @@ func Render(p *Prog, o RenderOpts) map[string]string {
 				headLines = append(headLines, h)
 			}
 			var lines []string
+			if o.Noise != nil && len(head) > 0 {
+				// blank lines and ordinary comments between the header comments and before the package clause
+				var noisy []string
+				var noisyLines []*Line
+				for i, h := range head {
+					noisy = append(noisy, h)
+					noisyLines = append(noisyLines, headLines[i])
+					switch o.Noise.Intn(4) {
+					case 0:
+						noisy = append(noisy, "")
+						noisyLines = append(noisyLines, nil)
+					case 1:
+						noisy = append(noisy, "", "// an ordinary remark about this file", "")
+						noisyLines = append(noisyLines, nil, nil, nil)
+					}
+				}
+				head, headLines = noisy, noisyLines
+			}
 			lines = append(lines, head...)
 			if f.PkgTrail != nil {
 				lines = append(lines, "package "+f.EffPkgName()+" // @ignore "+f.PkgTrail.Codes)
@@ -247,7 +265,9 @@ func Render(p *Prog, o RenderOpts) map[string]string {
 			offset := len(lines)
 			lines = append(lines, body...)
 			for i, h := range headLines {
-				h.File, h.No = f, i+1
+				if h != nil {
+					h.File, h.No = f, i+1
+				}
 			}
 			for _, pe := range pends {
 				pe.l.File, pe.l.No = f, offset+pe.idx+1
